@@ -205,11 +205,15 @@ def weave(src, spec, fname='?'):
     inserts = []   # (position, text)
     report = []
     if spec.get('decl'):
+        # after the last #include that precedes the first code token of the file
+        first_code = re.search(r'\S', m)
+        limit = first_code.start() if first_code else len(src)
         pos = 0
         for mo in re.finditer(r'^[ \t]*#[ \t]*include[^\n]*\n', src, re.M):
-            pos = mo.end()
+            if mo.end() <= limit:
+                pos = mo.end()
         inserts.append((pos, spec['decl']))
-        report.append('decl after last #include (offset %d)' % pos)
+        report.append('decl after the leading #include block (offset %d)' % pos)
     for lp in spec.get('loops', []):
         bo, bc = find_function(m, lp['func'])
         ls = loops_in(m, bo, bc)
